@@ -18,7 +18,7 @@ MAPS = {
 
 ITER_STEPS = ("::next", "::into_iter", "::iter", "::iter_mut", "::keys", "::into_keys", "::cloned", "::copied",
               "::collect", "::filter", "::drain", "::clone", "::deref", "::peekable", "::rev", "::by_ref",
-              "::map", "::enumerate", "::flatten")
+              "::map", "::enumerate", "::flatten", "::filter_map", "::flat_map")
 
 
 def which_map(recv_expr, t):
@@ -87,9 +87,12 @@ class Normalised:
                 return True
             # key read back from a table map through an iterator chain
             if any(n.endswith(s) for s in ITER_STEPS) or n.endswith("::remove_entry"):
-                if n.endswith("::map") and len(a[2]) > 1:
-                    # mapping closure must hand through (a projection of) its argument
+                if (n.endswith("::map") or n.endswith("::filter_map") or n.endswith("::flat_map")) and len(a[2]) > 1:
+                    # mapping closure must hand through (a projection of) its argument — or produce a lower-cased
+                    # string itself (`.filter_map(|srv| Some(srv.host().to_lowercase()))`)
                     if not self._closure_passes_through(a[2][1]):
+                        if self._closure_returns_normalised(a[2][1], depth, why):
+                            return True
                         why.append("map closure transforms the key")
                         return False
                 if a[2]:
@@ -152,6 +155,35 @@ class Normalised:
                     if x[2] == f and (x[3] or "").endswith(owner):
                         return True
         return False
+
+    def _closure_returns_normalised(self, clo, depth, why):
+        """every value the closure can return (looking into Some(..)) is a lower-cased string"""
+        cs = [c for c in strip(clo) if c[0] == "closure"]
+        if not cs:
+            return False
+        for c in cs:
+            cf = self.P.fns.get(c[1])
+            if cf is None:
+                return False
+            tr = tracer(self.P, cf)
+            got = False
+            for rb in cf.exits():
+                e = tr.local(0, endpos(cf, rb))
+                for a in strip(e):
+                    if a[0] == "agg" and a[1] == "adt" and (a[2] or "").endswith("option::Option"):
+                        if a[3] == "None":
+                            continue
+                        if a[3] == "Some" and a[4]:
+                            if not self.ok(cf, a[4][0], depth + 1, why):
+                                return False
+                            got = True
+                            continue
+                    if not self._one(cf, a, depth + 1, why):
+                        return False
+                    got = True
+            if not got:
+                return False
+        return True
 
     def _closure_passes_through(self, clo):
         for c in strip(clo):
